@@ -175,3 +175,50 @@ Fixpoint sys_run (l : side) (sols : list sol) (s : sys) (acts : list action) : o
   end.
 
 Definition count_nat (x : nat) (l : list nat) : nat := count_occ Nat.eq_dec l x.
+
+(* ---------- link lifecycle: the matched set is per link (C30) ---------- *)
+(* linkState.matched lives and dies with the linkState: addLink creates it
+   empty (and does nothing if the uuid is already tracked), removeLink drops it.
+   The solicitation sets sa / sb are fixed; Settle = both control loops have
+   exchanged their hashes and evaluateMatches has run on every link. *)
+Record lnk := mk_lnk { k_a : side; k_b : side; k_matched : list sbytes }.
+
+Inductive laction :=
+| LinkUp (id : nat) (la lb : side)   (* addLink on both controllers, link uuid id *)
+| LinkDown (id : nat)                (* removeLink on both controllers *)
+| Settle.
+
+Definition lstate := list (nat * lnk).
+
+Definition is_up (id : nat) (ls : lstate) : bool := existsb (fun p => Nat.eqb (fst p) id) ls.
+Definition ldrop (id : nat) (ls : lstate) : lstate := filter (fun p => negb (Nat.eqb (fst p) id)) ls.
+
+(* evaluateMatches on one link: the matches not yet in ls.matched *)
+Definition new_hashes (sa sb : list sol) (k : lnk) : list sbytes :=
+  filter (fun h => negb (smem h k.(k_matched))) (matched_hashes k.(k_a) sa k.(k_b) sb).
+
+(* the directives (by index) that receive a value for the new streams of one link *)
+Definition deliveries_a (sa sb : list sol) (k : lnk) : list nat :=
+  flat_map (resolve_match k.(k_a) sa) (new_hashes sa sb k).
+Definition deliveries_b (sa sb : list sol) (k : lnk) : list nat :=
+  flat_map (resolve_match k.(k_b) sb) (new_hashes sa sb k).
+
+Definition settle_link (sa sb : list sol) (p : nat * lnk) : nat * lnk :=
+  (fst p, mk_lnk (snd p).(k_a) (snd p).(k_b) ((snd p).(k_matched) ++ new_hashes sa sb (snd p))).
+
+(* observation of a step: per link uuid, the deliveries on side a and on side b *)
+Definition lstep (sa sb : list sol) (ls : lstate) (a : laction)
+  : lstate * list (nat * (list nat * list nat)) :=
+  match a with
+  | LinkUp id la lb => if is_up id ls then (ls, []) else ((id, mk_lnk la lb []) :: ls, [])
+  | LinkDown id => (ldrop id ls, [])
+  | Settle =>
+      (map (settle_link sa sb) ls,
+       map (fun p => (fst p, (deliveries_a sa sb (snd p), deliveries_b sa sb (snd p)))) ls)
+  end.
+
+Fixpoint lrun (sa sb : list sol) (ls : lstate) (acts : list laction) : lstate :=
+  match acts with
+  | [] => ls
+  | a :: rest => lrun sa sb (fst (lstep sa sb ls a)) rest
+  end.
